@@ -2329,6 +2329,27 @@ def gen_case(rng):
     return case
 
 
+def _walk_ty(d):
+    """every descriptor inside a declared type"""
+    yield d
+    if isinstance(d, dict):
+        for k in ("args",):
+            for a in d.get(k) or []:
+                yield from _walk_ty(a)
+        if isinstance(d.get("opt"), (dict, str)):
+            yield from _walk_ty(d["opt"])
+
+
+def _declared_types(case):
+    out = [case.get("ty")]
+    for dd in case.get("datas", []):
+        out += [f.get("ty") for f in dd.get("fields", [])]
+    fn = case.get("fn") or {}
+    out += [f.get("ty") for f in fn.get("params", [])] + [fn.get(k) for k in ("varargs", "varkw", "ret")]
+    out += [(case.get("gen") or {}).get(k) for k in ("yield", "send", "ret")]
+    return [x for x in out if x is not None]
+
+
 def _any_annotated(case):
     return bool(case.get("annotated") or any(f.get("annotated") for d in case.get("datas", []) for f in d["fields"]) or
                 any(f.get("annotated") for f in (case.get("fn") or {}).get("params", [])))
@@ -2706,6 +2727,19 @@ class C01(Check):
                 pieces = {p.strip() for t in texts for p in re.split(r"[,;]", t)} | set(texts) | {t.strip() for t in texts}
                 if info["val"]["s"] in pieces:
                     return "applied-instance-skips-constraints"
+            # an instance produced by an EARLIER condition of the same `&` (each condition converts what the previous one
+            # produced): `Rule[float](lt=5) & apply(float, const=3)` on 2 -> 2.0 is an instance when the applied type sees it.
+            # Structural, so it also holds where the model declines the case for an unrelated reason
+            base_t = node["apply"]["base"].get("t")
+            if info.get("got") == base_t and not node["apply"]["base"].get("sub"):
+                for d in _declared_types(case):
+                    for amp in _walk_ty(d):
+                        if isinstance(amp, dict) and amp.get("comb") == "&":
+                            args = amp.get("args") or []
+                            for i, a in enumerate(args):
+                                if i >= 1 and isinstance(a, dict) and "apply" in a and canon(a) == canon(node) and \
+                                        any(_base_of(b, case.get("lates") or []) == base_t for b in args[:i]):
+                                    return "applied-instance-skips-constraints"
             # an instance produced on the way (by an earlier `&` condition, by the enclosing container's conversion): the
             # model — which mirrors the shortcut and nothing else that could skip a validator — predicts this very result
             mo, out = getattr(self, "_mo", None), (getattr(self, "_io", None) or {})
